@@ -232,6 +232,7 @@ vdata_cmp(int32 vs1, int32 vs2, char *gname, char *cname, diff_opt_t *opt)
                fields1, vsize1, vsclass1);
         printf("< <%d> nrec=%d interlace=%d fld=[%s] vsize=%d class={%s})\n", vsotag2, nv2, interlace2,
                fields2, vsize2, vsclass2);
+        nfound = 1;
         goto out;
     }
 
